@@ -16,12 +16,8 @@ import struct
 import common
 from common import Check, main_wrapper
 
-KEY_OVERSHOOT = "scale-slice-overshoot:2-cores:odd-intermediate-slice"
-KEY_IFMBITS = "cache-key-omits-ifm-bitdepth:shared-weight-tensor"
-KEY_ACCEL = "cache-key-omits-accelerator:value-derived-id-across-compilations"
-KEY_MEANID = "cache-value-id-from-element-count:mean-ones-weights"
-KEY_SINGLEBUF = "single-weight-buffer-sized-dbs0:odd-slice-larger"
-
+# All five former findings of this property are repaired in /repo (known_findings.txt: `fixed: property=C08 ...`);
+# nothing is keyed any more: a regression of any of them is a plain VIOLATION.
 
 def main():
     ck = Check("C08", "proof")
@@ -54,6 +50,14 @@ def main():
         return archs[acc]
 
     cache = wc.CompressedWeightCache.cache
+
+    def wcc_of(weight_tens, op, block_config, depth_offsets, kernel):
+        """the implementation's own cache key for a request (signature with / without the IFM bit depth)"""
+        a = (weight_tens, op.type.npu_block_type, block_config.ofm_block.depth, hash(str(depth_offsets)), kernel.dilation)
+        try:
+            return wc.create_weight_compression_config(*a, op.inputs[0].dtype.size_in_bits())
+        except TypeError:
+            return wc.create_weight_compression_config(*a)
 
     # ------------------------------------------------------------------------------------------
     # 1. encode_bias: model correspondence + Spec decoder on the real bytes
@@ -557,23 +561,10 @@ def main():
         ck.violation(f"encode_weight_and_scale_tensor raises {reals[i]['err']} on a well-formed request ({c['kind']}, {c['acc'].value}, depth offsets "
                      f"{c['offsets']}, block depth {c['bd']}): no tensor is assembled", describe(c))
 
-    def classify(fail_str):
-        """all failures sit at core 1 of a ragged intermediate slice of a 2-core request, and only the scale clauses fail"""
-        fs = fail_str.split()[1:]
-        return all(f.split(":")[0] in ("scale-count", "scale-records") and f.split(":")[3] == "1" for f in fs)
-
     spec_fail = []
-    known_hit = 0
     for i, o in zip(spec_idx, spec_out):
         if o == "ok":
             ck.count("spec_ok")
-            continue
-        if o.startswith("fail") and classify(o):
-            known_hit += 1
-            ck.count("spec_known_overshoot")
-            c = cases[i]
-            ck.violation(f"scale section of (core 1, slice with odd length) holds one record too many: {o} for depth offsets {c['offsets']} on {c['acc'].value}",
-                         describe(c), key=KEY_OVERSHOOT)
             continue
         spec_fail.append((i, o))
         ck.count("spec_fail")
@@ -581,13 +572,11 @@ def main():
         c = cases[i]
         ck.violation(f"Lean Spec rejects the tensor built by encode_weight_and_scale_tensor: {o[:200]} ({c['kind']}, {c['acc'].value}, "
                      f"depth offsets {c['offsets']}, block depth {c['bd']}, IFM {c['ifm']})", dict(describe(c), spec_verdict=o[:2000]))
-    # the witness must reproduce exactly: (core 1, slice 0) fails, nothing else
+    # the configuration of the former finding (2 cores, [0,3,8]) is case 0: reported with the rest if it fails again
     wit_out = spec_out[spec_idx.index(0)] if 0 in spec_idx else None
     ck.sample({"witness_request": "U65-512, depth offsets [0,3,8], 8 channels", "spec_verdict": wit_out,
                "real_ranges": ranges_of(reals[0]["wt"]) if reals[0]["wt"] else None})
-    if wit_out != "fail scale-count:0:1:1 scale-records:0:1:1":
-        ck.notes.append(f"recorded witness no longer reproduces as recorded: {wit_out}")
-        ck.count("witness_changed")
+    ck.count("former_witness_" + ("ok" if wit_out == "ok" else "rejected"))
     if prep_dis and not spec_fail:
         i = prep_dis[0]
         ck.violation(f"correspondence prepareScales vs _prepare_scale_and_bias broken on {len(prep_dis)} inputs",
@@ -621,7 +610,7 @@ def main():
         rs = ranges_of(wt)
         offs = cases[i]["offsets"]
         si = rng.randrange(len(offs) - 1)
-        depth = offs[si] if rng.random() < 0.95 else offs[si] + 1
+        depth = offs[si] if rng.random() < 0.95 or offs[si] + 1 in offs else offs[si] + 1     # 5 %: a start channel that is no slice start
         buffered = rng.random() < 0.5
         box = Box([0, 0, 0, depth], [1, 1, 1, offs[si + 1]])
         if buffered:
@@ -686,11 +675,8 @@ def main():
     for j in aspec_fail[:3]:
         i, si, depth, buffered = addr_meta[j]
         c = cases[i]
-        # a ragged intermediate slice on two cores also makes core 1's range one record longer: same root cause
-        two_core_ragged = built[i][0].ncores == 2 and any((b2 - a) % 2 for a, b2 in zip(c["offsets"][:-2], c["offsets"][1:-1]))
         ck.violation(f"address range outside its tensor / unaligned: {addr_spec[j][:200]} (slice {si}, start channel {depth}, buffered={buffered})",
-                     dict(describe(c), addr_request=addr_spec[j], real=addr_real[min(j, len(addr_real) - 1)]),
-                     key=KEY_OVERSHOOT if two_core_ragged else None)
+                     dict(describe(c), addr_request=addr_spec[j], real=addr_real[min(j, len(addr_real) - 1)]))
     if addr_dis and not aspec_fail and not amatch_fail:
         j = addr_dis[0]
         ck.violation(f"correspondence createWeights/createDmaOp vs high_level_command_to_npu_op broken on {len(addr_dis)} inputs",
@@ -766,13 +752,15 @@ def main():
         variants = []
         nc0 = arch0.ncores
         offs_pool = [[0, O]] + [gen_offsets(O, nc0, base["bd"], "even" if nc0 == 2 else "any") for _ in range(2)]
-        axis = rng.choice(["ifm", "ifm", "acc", "none"])
+        # the accelerator is constant while a cache lives (compiler_driver empties it), so it is not varied here;
+        # the cross-compilation case is scenario (c) below
+        axis = rng.choice(["ifm", "ifm", "none"])
         for _ in range(rng.randint(3, 7)):
             v = {"offsets": rng.choice(offs_pool), "bd": rng.choice([base["bd"], base["bd"], 8, 16, 64]), "dil": rng.choice([1, 1, 1, 2]),
                  "ifm": "int8", "acc": base["acc"], "bias2": rng.random() < 0.3, "ofm_scale2": rng.random() < 0.2}
             r = rng.random()
             if axis == "ifm" and r < 0.4:
-                v["ifm"] = "int16"          # same weight tensor, other IFM bit depth (known finding)
+                v["ifm"] = "int16"          # same weight tensor, other IFM bit depth (must be a miss since the key holds the bit depth)
             elif axis == "acc" and r < 0.4:
                 v["acc"] = Accelerator.Ethos_U55_256 if base["acc"] != Accelerator.Ethos_U55_256 else Accelerator.Ethos_U65_512
             variants.append(v)
@@ -804,7 +792,7 @@ def main():
             bc = ArchitectureBlockConfig()
             bc.ofm_block = Shape4D(1, 2, 2, v["bd"])
             args = (arch, op, w0, bb, kernel, bc, list(v["offsets"]))
-            wcc = wc.create_weight_compression_config(w0, op.type.npu_block_type, bc.ofm_block.depth, hash(str(args[6])), kernel.dilation)
+            wcc = wcc_of(w0, op, bc, args[6], kernel)
             pre = cache.get(wcc)
             try:
                 wt, st = wc.encode_weight_and_scale_tensor(*args)
@@ -894,16 +882,7 @@ def main():
         info = {"world": wi, "variant": {k: (x.value if hasattr(x, "value") else x) for k, x in v.items()}, "outcome": outcome, "request_vs_cache_filler": d,
                 "replay": "same weight tensor object requested twice through weight_compressor.encode_weight_and_scale_tensor; second request "
                           "differs from the first only in the fields listed under diff="}
-        key = None
-        if d.startswith("wkey=1") and "diff=" in d:
-            fields = set(d.split("diff=")[1].split(","))
-            fields.discard("scaleData")       # scales are re-encoded on a weights-only hit
-            fields.discard("blockDepth")      # equal after clamping to the OFM depth: every core's block still covers its channels
-            if fields == {"ifmBits"}:
-                key = KEY_IFMBITS
-            elif fields == {"accelerator"}:
-                key = KEY_ACCEL
-        ck.violation(f"compression cache returns an encoding that differs from a fresh one ({outcome}; {d})", info, key=key)
+        ck.violation(f"compression cache returns an encoding that differs from a fresh one ({outcome}; {d})", info)
     ck.count("cache_requests", len(seq_same_reqs))
 
     # ------------------------------------------------------------------------------------------
@@ -917,13 +896,13 @@ def main():
 
     def cap(arch, op, weight_tens, scale_tens, kernel, block_config, depth_offsets):
         offs = [int(x) for x in depth_offsets]
-        wcc = wc.create_weight_compression_config(weight_tens, op.type.npu_block_type, block_config.ofm_block.depth, hash(str(depth_offsets)), kernel.dilation)
+        wcc = wcc_of(weight_tens, op, block_config, depth_offsets, kernel)
         pre = cache.get(wcc)
         r = orig_enc(arch, op, weight_tens, scale_tens, kernel, block_config, depth_offsets)
         captured.append(((arch, op, weight_tens, scale_tens, kernel, block_config, depth_offsets), offs, r, pre is not None, wcc))
         return r
 
-    def compile_and_check(name, data, opts, expect_key=None, fresh_cache=True):
+    def compile_and_check(name, data, opts, fresh_cache=True):
         """compile; Spec on every distinct tensor returned to the scheduler; fresh-vs-cached on every hit;
         scheduler buffers vs DMA sizes"""
         if fresh_cache:
@@ -1001,7 +980,7 @@ def main():
                 ck.violation(f"{name}: cached weight encoding returned for operator {op.name} (IFM {op.inputs[0].dtype}, weights {list(w.values.shape)}, "
                              f"{arch.accelerator_config.value}) differs from a fresh encoding",
                              {"network": name, "options": opts, "op": op.name, "ifm_dtype": str(op.inputs[0].dtype), "weights_shape": list(w.values.shape),
-                              "replay": "compile the network built by check_C08.%s with %s" % (name, " ".join(opts))}, key=expect_key)
+                              "replay": "compile the network built by check_C08.%s with %s" % (name, " ".join(opts))})
         # scheduler buffers: slice i is DMA'd into buffer i mod n
         blines, bmeta = [], []
         for st_ in res.streams:
@@ -1027,12 +1006,10 @@ def main():
         bo = ck.model(blines)
         for o, m in zip(bo, bmeta):
             if o != "1":
-                single = len(m[1]) == 1 and len(m[2]) > 1 and m[1][0] == m[4][0] and all(x <= max(m[4]) for x in m[2])
                 ck.count("pipe_buffer_too_small")
                 ck.violation(f"{name}: weight buffer(s) {m[1]} of operator {m[0]} cannot hold slice DMA sizes {m[2]} (depth slices {m[3]}, double_buffer_sizes {m[4]})",
                              {"network": name, "options": opts, "op": m[0], "buffer_sizes": m[1], "slice_dma_bytes": m[2], "depth_slices": m[3],
-                              "double_buffer_sizes": m[4], "replay": "compile network '%s' with %s" % (name, " ".join(opts))},
-                             key=KEY_SINGLEBUF if single else None)
+                              "double_buffer_sizes": m[4], "replay": "compile network '%s' with %s" % (name, " ".join(opts))})
         return res
 
     def conv_pair_net():
@@ -1069,13 +1046,13 @@ def main():
         return netgen.serialize(b.finish([y]))
 
     # (a) two consumers of one weight tensor with different IFM bit depth
-    compile_and_check("shared_w_int8_int16", conv_pair_net(), ["--accelerator-config", "ethos-u55-128"], expect_key=KEY_IFMBITS)
+    compile_and_check("shared_w_int8_int16", conv_pair_net(), ["--accelerator-config", "ethos-u55-128"])
     # (b) two MEAN reductions with the same element count and depth in one network (9x2 and 3x6)
-    compile_and_check("two_means_9x2_3x6", mean_net([(9, 2, 16), (3, 6, 16)], "two_means"), ["--accelerator-config", "ethos-u55-128"], expect_key=KEY_MEANID)
+    compile_and_check("two_means_9x2_3x6", mean_net([(9, 2, 16), (3, 6, 16)], "two_means"), ["--accelerator-config", "ethos-u55-128"])
     # (c) one network compiled for two accelerators in the same process (cache and value-derived ids survive)
     mdata = mean_net([(9, 2, 16)], "one_mean")
     compile_and_check("one_mean_u55", mdata, ["--accelerator-config", "ethos-u55-128"])
-    compile_and_check("one_mean_u65_after_u55", mdata, ["--accelerator-config", "ethos-u65-512"], expect_key=KEY_ACCEL, fresh_cache=False)
+    compile_and_check("one_mean_u65_after_u55", mdata, ["--accelerator-config", "ethos-u65-512"], fresh_cache=False)
     # (d) a single (not double) weight buffer with several depth slices
     compile_and_check("single_buffer_560_vs_2864", overflow_net(), ["--accelerator-config", "ethos-u55-64", "--arena-cache-size", "4000", "--optimise", "Performance"])
     # (e) random weight-heavy networks: scheduler-produced depth slices, incl. two cores
@@ -1124,7 +1101,6 @@ def main():
         "encode_requests": len(cases),
         "spec_checked_real_tensors": len(spec_reqs) + ck.counters.get("pipe_spec_ok", 0),
         "spec_rejections_unknown": len(spec_fail),
-        "spec_rejections_known_overshoot": known_hit,
         "disagreements": {"bias": len(bias_dis), "prep": len(prep_dis), "encode": len(enc_dis), "addr": len(addr_dis)},
         "cache_sequences": n_worlds,
         "networks_compiled": ck.counters.get("compile_ok", 0),
